@@ -2520,14 +2520,17 @@ return 1;""",
             for overload in methods:
                 if overload.cpp_if:
                     body.append("#" + overload.cpp_if)
+                # Only count the arguments which are passed from Python.
+                params = overload.ast.params
                 if overload._nargs:
                     body.append(
                         "if (SHT_nargs >= %d && SHT_nargs <= %d) {+"
-                        % overload._nargs
+                        % (py_count_args(params[:overload._nargs[0]]),
+                           py_count_args(params))
                     )
                 else:
                     body.append(
-                        "if (SHT_nargs == %d) {+" % len(overload.ast.params)
+                        "if (SHT_nargs == %d) {+" % py_count_args(params)
                     )
                 append_format(
                     body,
@@ -3546,6 +3549,20 @@ class ToImplied(todict.PrintNode):
             #c_helper="ShroudLenTrim"
         else:
             return self.param_list(node)
+
+
+def py_count_args(params):
+    """Return the number of arguments which are parsed from
+    the Python argument list.
+    intent(out), implied and hidden arguments are not passed by the caller.
+    """
+    nargs = 0
+    for arg in params:
+        if arg.attrs["implied"] or arg.attrs["hidden"]:
+            continue
+        if arg.metaattrs["intent"] in ["in", "inout"]:
+            nargs += 1
+    return nargs
 
 
 def py_implied(expr, func):
